@@ -25,18 +25,18 @@ CHECKS = {
             'Decides that every crash point lies between effects whose order leaves old-or-new catalogue '
             'consistent, that only the blob backend creates/removes files, that recovery replays only *.wal and '
             'its jobs report failures as values. Not decided: the behaviour of a recovery run.', '5/C09'),
-    'C10': ('static lock analysis over MIR: guard tracking, must-hold sets (LCK-1,3..7), offset-origin dataflow (FLW-16), OPT-1, FLW-7, FLW-22, ORD-17, PAN-6',
+    'C10': ('static lock analysis over MIR: guard tracking, must-hold sets (LCK-1,3..7), offset-origin dataflow (FLW-16), OPT-1, FLW-7, FLW-22, ORD-17, PAN-6, WHO-6; partition-map mutations followed into helpers',
             'Decides the lock discipline of the snapshot protocol for all interleavings (exclusion is proved, '
             'not sampled). Not decided: that results equal a prefix at value level.', '5/C10'),
     'C11': ('lock-order graph, blocking-under-lock, condvar pairing, pool-job reply rules, error-as-value '
-            'and arithmetic rules over MIR (LCK-8/9/10, CND-1/2, JOB-1, ERV-1/2/4, FLW-1, FLW-7, FLW-22, OPT-1, CHK-7, ORD-13 limit-zero, PAN-4/5/6)',
+            'and arithmetic rules over MIR (LCK-8/9/10, CND-1/2, JOB-1, ERV-1/2/4, FLW-1, FLW-7, FLW-22, OPT-1, CHK-7, ORD-13 limit-zero, PAN-4/5/6/7/8, LCK-11 worker-never-waits-for-its-own-pool over the call graph, CND-3 blocking-implies-flush)',
             'Decides deadlock-freedom clauses and the no-damage clauses of failing requests. Not decided: '
             'panic-freedom of the whole operator engine, running-time bounds.', '5/C11'),
     'C12': ('panic-source enumeration over MIR with recognised safe idioms + exception table (PAN-2/3), '
-            'ERV-2, FLW-1, FLW-8, LCK-10, ORD-13 limit-zero',
+            'ERV-2, FLW-1, FLW-8, LCK-10, ORD-13 limit-zero, PAN-4, structural equality of the row-loop range and the slice_box window (FLW-26), checked range arithmetic of the grouping planner (PAN-8)',
             'Decides that the text -> task shell has no explicit panic source and produces one column per select '
             'item. Not decided: panics inside sqlparser, value well-formedness.', '5/C12'),
-    'C18': ('MIR lock/dataflow/order rules: LCK-1, FLW-13/14/15/17/19, ORD-4/5, CND-1/2, LIT-3',
+    'C18': ('MIR lock/dataflow/order rules: LCK-1, FLW-13/14/15/17/19, ORD-4/5, CND-1/2/3, LIT-3',
             'Decides reset+notify under the ingestion lock, that everything to delete reaches its delete call '
             'after the catalogue write, that store leaves no temp file, and the flush trigger. Not decided: the '
             'actual directory listing over long histories.', '5/C18'),
@@ -57,7 +57,7 @@ CHECKS.update({
             'Equality of results across layouts at value level is NOT decided.', '5/C02'),
     'C04': ('syntax-tree table rules over the aggregator pipeline: SQL name -> aggregator -> planner arm '
             '(TBL-15), marker type operations and neutral elements (TBL-16), merge of partial aggregates and '
-            'its plumbing (TBL-14), checked SUM (CHK-8), filter-exactly-once typestate (FLW-23), in-place null-map compaction (NUL-4), PAN-5, NUL-3, WHO-5',
+            'its plumbing (TBL-14), checked SUM (CHK-8), filter-exactly-once typestate (FLW-23), in-place null-map compaction (NUL-4), PAN-5, NUL-3, WHO-5, checked range arithmetic of the grouping planner (PAN-8)',
             'Narrow claim: every aggregate keeps its kind from the SQL text to the operator, accumulates / '
             'combines / merges across partitions with its own operation, NULL partial results yield the other '
             'side. Group identity and the per-group values are NOT decided.', '5/C04'),
@@ -68,7 +68,7 @@ CHECKS.update({
             'Narrow claim: the compaction-only decode routine handles what its siblings handle, compaction '
             'covers all names/parts/types, flush never unwraps an evictable payload, null maps survive decode and the column builder. Value preservation of '
             're-encoding NOT decided.', '5/C07'),
-    'C13': ('MIR order/lock rules + literal agreement (ORD-7, ORD-12, TBL-6, WHO-3, LIT-2, FLW-2, FLW-21), PAN-5, registry NULL-forwarding table (TBL-20)',
+    'C13': ('MIR order/lock rules + literal agreement (ORD-7, ORD-12, TBL-6, WHO-3, LIT-2, FLW-2, FLW-21), PAN-5, registry NULL-forwarding table (TBL-20), who-may-remove column handles (WHO-6), FLW-27',
             'Narrow claim: catalogue rows travel in the same segment, ingestion siblings agree, only they '
             'write the name set, catalogue literals agree. Exactly-once listing over histories NOT decided.',
             '5/C13'),
@@ -83,10 +83,10 @@ CHECKS.update({
             'Narrow claim: paths are built only from sanitised parts, predicates exclude separators/NUL and '
             'bound the length, modified names get the digest, columns sorted before grouping. The range lookup '
             'itself NOT decided.', '5/C15'),
-    'C16': ('syntax-tree codec/width tables (TBL-8/10/12, WID-3), MIR widening rule (FLW-12), MIR float-comparison rule on the XOR codec (FLT-1), LIT-1, PAN-7 (an empty table buffer is applicable)',
+    'C16': ('syntax-tree codec/width tables (TBL-8/10/12, WID-3), MIR widening rule (FLW-12), MIR float-comparison rule on the XOR codec (FLT-1), LIT-1, PAN-7 (an empty table buffer / a short string column is applicable), row-position table of the client column builder (TBL-22)',
             'Narrow claim: variants map to members the reader maps back, each narrow layout guarded by its own '
             'type bounds, double-delta only when first differences fit i64, widen before subtracting, XOR stream field widths/biases agree and the codec compares bit patterns only. The XOR state machine and delta arithmetic NOT decided.', '5/C16'),
-    'C17': ('MIR rules on the HTTP handlers (ERV-3, ORD-9, ORD-14) + JSON/type-signature tables (TBL-11)',
+    'C17': ('MIR rules on the HTTP handlers (ERV-3, ORD-9 incl. decoded-request-is-ingested, ORD-14) + JSON/type-signature tables (TBL-11)',
             'Narrow claim: every query handler maps errors to a non-2xx response, insert answers 200 only after '
             'ingestion completed, multi-query answers gathered in request order, JSON renderers and type-signature branches agree. Value equality between '
             'HTTP and embedded results NOT decided.', '5/C17'),
